@@ -410,30 +410,44 @@ func (a Int) M__imul__(other Object) (Object, error) {
 	return a.M__mul__(other)
 }
 
-func (a Int) M__truediv__(other Object) (Object, error) {
-	b, err := MakeFloat(other)
-	if err != nil {
-		return nil, err
-	}
-	fa := Float(a)
-	fb := b.(Float)
-	if fb == 0 {
+// intTrueDiv returns a / b as the float nearest to the exact quotient
+func intTrueDiv(a, b *big.Int) (Object, error) {
+	if b.Sign() == 0 {
 		return nil, divisionByZero
 	}
-	return Float(fa / fb), nil
+	if a.Sign() == 0 {
+		// 0 / -1 is -0.0
+		return Float(math.Copysign(0, float64(b.Sign()))), nil
+	}
+	// Both fit a float exactly: the hardware division rounds once
+	if a.IsInt64() && b.IsInt64() {
+		x, y := a.Int64(), b.Int64()
+		const exact = 1 << float64precision
+		if -exact <= x && x <= exact && -exact <= y && y <= exact {
+			return Float(float64(x) / float64(y)), nil
+		}
+	}
+	// Float64 gives the nearest float64 of the exact quotient, an
+	// infinity if that is out of range
+	f, _ := new(big.Rat).SetFrac(a, b).Float64()
+	if math.IsInf(f, 0) {
+		return nil, ExceptionNewf(OverflowError, "integer division result too large for a float")
+	}
+	return Float(f), nil
+}
+
+func (a Int) M__truediv__(other Object) (Object, error) {
+	if b, ok := ConvertToBigInt(other); ok {
+		return intTrueDiv(big.NewInt(int64(a)), (*big.Int)(b))
+	}
+	return NotImplemented, nil
 }
 
 func (a Int) M__rtruediv__(other Object) (Object, error) {
-	b, err := MakeFloat(other)
-	if err != nil {
-		return nil, err
+	if b, ok := ConvertToBigInt(other); ok {
+		return intTrueDiv((*big.Int)(b), big.NewInt(int64(a)))
 	}
-	fa := Float(a)
-	fb := b.(Float)
-	if fa == 0 {
-		return nil, divisionByZero
-	}
-	return Float(fb / fa), nil
+	return NotImplemented, nil
 }
 
 func (a Int) M__itruediv__(other Object) (Object, error) {
